@@ -38,6 +38,13 @@ class WriteEvent:
         self.loopvars = loopvars or []
 
 
+def log_read(c, kind, off, n, extra_loopvars=()):
+    """append a backend range read to the ghost log (family event when inside L3 loops / for contract summaries)"""
+    from . import loops
+    lv = [(v.z, v.n) for v in loops.active_vars()] + list(extra_loopvars)
+    c.ghost.setdefault('reads', []).append(ReadEvent(kind, off, n, len(c.pc), loopvars=lv))
+
+
 def new_file(kind, mode='rb', name='<file>', length=None):
     f = SObj(None, clsname='$file')
     f.fields.update(kind=kind, mode=mode, name=name, pos=0, closed=False, flen=length)
@@ -74,7 +81,8 @@ def register(lib):
             raise Unsupported('read() with negative symbolic length (reads to EOF)')
         kind = f.fields['kind']
         pos = f.fields['pos']
-        c.ghost.setdefault('reads', []).append(ReadEvent(kind, pos, n, len(c.pc)))
+        from . import loops
+        c.ghost.setdefault('reads', []).append(ReadEvent(kind, pos, n, len(c.pc), loopvars=[(v.z, v.n) for v in loops.active_vars()]))
         mode = c.ghost.get('io_mode', 'reliable')
         if mode == 'faulty':
             # environment: may raise, may return short (AX-FILE weak form)
